@@ -380,18 +380,18 @@ def step (c impl : String) : String :=
     | some (ca, cb), some (ia, ib) =>
       match eval1 ca, eval1 cb with
       | some a, some b =>
-        if ia != a.expected then modelDiff ("A:" ++ a.expected)
+        -- the property first (it does not depend on the model's encoder): real keys equal <=> inputs semantically equal
+        let semEq := a.canon == b.canon
+        let keyEq := ia == ib
+        if semEq && !keyEq then
+          (if hasDupSortKeys ca then
+            specViol "F24 different keys for the same contextual tuples in another order: TupleKeys.Less is not strict on equal (object,relation,user,condition) so tuples that differ only in their condition context are hashed in input order"
+           else specViol ("different keys for semantically equal inputs (" ++ a.cls ++ ")"))
+        else if !semEq && keyEq then
+          specViol ("EQUAL KEYS for semantically different inputs (" ++ a.cls ++ " / " ++ b.cls ++ "): a wrong cache hit is possible")
+        else if ia != a.expected then modelDiff ("A:" ++ a.expected)
         else if ib != b.expected then modelDiff ("B:" ++ b.expected)
-        else
-          let semEq := a.canon == b.canon
-          let keyEq := ia == ib
-          if semEq && !keyEq then
-            (if hasDupSortKeys ca then
-              specViol "F24 different keys for the same contextual tuples in another order: TupleKeys.Less is not strict on equal (object,relation,user,condition) so tuples that differ only in their condition context are hashed in input order"
-             else specViol ("different keys for semantically equal inputs (" ++ a.cls ++ ")"))
-          else if !semEq && keyEq then
-            specViol ("EQUAL KEYS for semantically different inputs (" ++ a.cls ++ " / " ++ b.cls ++ "): a wrong cache hit is possible")
-          else ok ("pair-" ++ a.cls ++ (if semEq then "-equal" else "-distinct"))
+        else ok ("pair-" ++ a.cls ++ (if semEq then "-equal" else "-distinct"))
       | _, _ => "SKIP unparsable-pair"
     | _, _ => "SKIP unparsable-pair"
   else if c.startsWith "v2req " then v2Step c impl
